@@ -1319,7 +1319,7 @@ class DoDoer(Doer):
             if not dog:  # Marker detected so this run through once has completed
                 break  # break loop at marker signifies once through
 
-            if retyme <= tyme:  # run it now
+            if retyme is None or retyme <= tyme:  # run it now, None means asap
                 try:  # send tyme. yield tock, tock may change during sended run
                     tock = dog.send(tyme)  # yielded tock == 0.0 means re-run asap
                 except StopIteration as ex:  # returned instead of yielded
@@ -1330,9 +1330,11 @@ class DoDoer(Doer):
                         doer.__func__.done = ex.value if ex.value is not None else doer.done
                 else:  # reappend for next pass
                     if not tock:  # tock is None or tock == 0.0 with empty yield tock == None
-                        retyme = tyme + self.tock  # rerun at next recur
-                    else:
-                        retyme += tock  # cumulative retyme of doer tock
+                        # rerun at next recur whose tyme is not known here when
+                        # own tock is 0.0 so None marks asap
+                        retyme = tyme + self.tock if self.tock else None
+                    else:  # cumulative retyme of doer tock from tyme when due
+                        retyme = (tyme if retyme is None else retyme) + tock
                     deeds.append((dog, retyme, doer))  # reappend for next run through
             else:  # not retyme yet
                 deeds.append((dog, retyme, doer))  # reappend for next run through
